@@ -538,6 +538,35 @@ def check_no_carry_over(ctx: Ctx) -> int:
                                      f"on [{bp.describe()[:100]}] the value left by the previous iteration flows into {short(e.term) if e.kind == 'call' else (short(e.target) if e.kind == 'store' else 'a loop')}"[:300])
                     else:
                         ctx.holds(f, l.node, f"{q}: `{name}` is a per-iteration value set before use", "set in every iteration before it is used", "never read before it is set")
+                # a container made before the loop, changed in place in an iteration and read in the same
+                # iteration carries the earlier iterations' entries with it
+                lid_tag = f"∈{l.loopid}"
+                for bp in l.paths:
+                    if bp.exit[0] == "raise":
+                        continue
+                    local_allocs = {e.data.get("sym") for e in bp.walk_events(True) if e.kind == "note" and e.data.get("what") == "alloc"}
+                    muts = []
+                    for e in bp.walk_events(True):
+                        t = None
+                        if e.kind == "call" and e.data.get("mutates") is not None:
+                            t = e.data["mutates"]
+                        elif e.kind == "store" and e.attr is None and e.base is not None:
+                            t = e.base
+                        if t is None or t in local_allocs:
+                            continue
+                        ts = strip_ver(t)
+                        if any(s_[0] == "sym" and (lid_tag in s_[1] or s_[1].startswith("φ") or s_[1].startswith("ψ")) for s_ in subterms(ts)):
+                            continue  # belongs to this iteration (or is carried explicitly: handled above)
+                        root = ts
+                        while root[0] in ("attr", "sub") and root != ("attr", ("sym", "self"), "settings"):
+                            root = root[1]
+                        if root == ("sym", "self") or ts[0] == "attr":
+                            continue  # registries of the runner / simulator are meant to accumulate
+                        muts.append((e, ts))
+                    for me, ts in muts:
+                        readers = [e for e, t in _terms_of_events(bp, True) if e is not me and ts in [strip_ver(x) for x in subterms(t)] and not (e.kind == "call" and e.data.get("mutates") is not None and strip_ver(e.data["mutates"]) == ts)]
+                        if readers:
+                            ctx.violated(f, me.node, f"{q}: what one iteration puts into a container made before the loop is not read by the next", "a fresh container per iteration (or no in-place change)", f"{short(ts)[:80]} is changed in place and then read by {short(readers[0].term)[:80] if readers[0].kind == 'call' else 'a store'}: entries of earlier iterations stay in it")
             break
     return n
 
@@ -546,3 +575,22 @@ def check_no_carry_over(ctx: Ctx) -> int:
 def r8(ctx: Ctx) -> None:
     n = check_no_carry_over(ctx)
     ctx.require(n >= 3, "expansion loops not found")
+
+
+@rule("C18.R9", "the configuration a runner works on is the file's content, entry for entry: json is loaded without hooks that drop or rewrite entries", "T13 lint on every json.load / json.loads in pams", floor=1)
+def r9(ctx: Ctx) -> None:
+    import ast as _ast
+
+    n = 0
+    for mi in ctx.program.modules.values():
+        for node in _ast.walk(mi.tree):
+            if not (isinstance(node, _ast.Call) and isinstance(node.func, _ast.Attribute) and node.func.attr in ("load", "loads") and isinstance(node.func.value, _ast.Name) and mi.imports.get(node.func.value.id, node.func.value.id) == "json"):
+                continue
+            n += 1
+            hooks = [k.arg for k in node.keywords if k.arg in ("object_hook", "object_pairs_hook", "parse_float", "parse_int", "parse_constant", "cls")]
+            f = None
+            for g in ctx.program.all_functions():
+                if g.module is mi and g.node.lineno <= node.lineno <= (g.node.end_lineno or node.lineno):
+                    f = g if f is None or g.node.lineno >= f.node.lineno else f
+            ctx.check(not hooks, f, node, "json is read as it is", "json.load(fp) without object_hook / parse_* arguments", ("hooks: " + ", ".join(hooks)) if hooks else "plain load")
+    ctx.require(n >= 1, "no json.load in pams (the runner is expected to read its configuration with it)")
